@@ -1,6 +1,7 @@
 package main
 
 import (
+	"time"
 	"bytes"
 	"context"
 	"fmt"
@@ -83,7 +84,11 @@ func genC17(r *Rng, n int, tier string, emit func(Case)) {
 		}
 		data := J{"x": fmt.Sprintf("<v%d>", r.Intn(100)), "y": r.Intn(50), "cart": J{"n": r.Intn(9), "label": "n/a"}, "crumbs": []interface{}{"Home"},
 			"lf": J{"__go": "leafy"}, "bad": J{"v": J{"__go": "nan"}}}
-		emit(Case{"kind": "partials", "model_needs_impl": true, "files": files, "tpl": tpl, "req": req, "data": data})
+		cs := Case{"kind": "partials", "model_needs_impl": true, "files": files, "tpl": tpl, "req": req, "data": data}
+		if r.Chance(1, 4) {
+			cs["ratelimit"] = r.Range(1, 2)
+		}
+		emit(cs)
 	}
 }
 
@@ -92,7 +97,13 @@ func runPartials(c Case) interface{} {
 	for k, v := range c["files"].(map[string]interface{}) {
 		files[k] = v.(string)
 	}
-	eng, err := newEngine(EngineSpec{Files: files})
+	// "ratelimit": the engine carries a render limit (the module's default is 8): renders that fail - unknown names, failing
+	// partials - must leave it as they found it, or later requests wait for ever
+	rl := 0
+	if v, ok := c["ratelimit"].(float64); ok {
+		rl = int(v)
+	}
+	eng, err := newEngine(EngineSpec{Files: files, RateLimit: rl})
 	if err != nil {
 		return J{"class": "harness-error", "msg": err.Error()}
 	}
@@ -126,7 +137,13 @@ func runPartials(c Case) interface{} {
 				res = J{"class": pr.Class, "msg": pr.Msg}
 			}
 		}()
-		m, err := eng.E.RenderPartials(context.Background(), tpl, data, req)
+		ctx := context.Background()
+		if rl > 0 {
+			var cancel context.CancelFunc
+			ctx, cancel = context.WithTimeout(ctx, 3*time.Second) // a request that cannot get a slot ends here instead of hanging
+			defer cancel()
+		}
+		m, err := eng.E.RenderPartials(ctx, tpl, data, req)
 		if err != nil {
 			cls := "error"
 			if len(m) != 0 {
